@@ -33,6 +33,10 @@ fn observe(s: &[u8]) -> Result<Obs, String> {
 }
 
 pub fn oracle(frame: &[u8], suffix: &[u8]) -> Result<(), (String, String)> {
+    oracle_with(frame, suffix, suffix.len() <= 64 || (suffix.len() <= 4200 && !suffix.contains(&0xD3)))
+}
+/// `iter_view`: also look the frame up through MsgFrameIter (first / last / nth / count); costs several scans of the buffer
+pub fn oracle_with(frame: &[u8], suffix: &[u8], iter_view: bool) -> Result<(), (String, String)> {
     let l = frame.len() - 6;
     let a = observe(frame).map_err(|e| ("c13:valid-frame-rejected".to_string(), format!("frame alone rejected: {}", e)))?;
     let mut ext = frame.to_vec();
@@ -59,6 +63,31 @@ pub fn oracle(frame: &[u8], suffix: &[u8]) -> Result<(), (String, String)> {
                 return Err(("c13:scanner-frame-depends-on-suffix".into(), format!("scanner {}: consumed {} and delivered a {}-byte frame (expected the {}-byte frame at offset 0)", which, c, m.frame_len(), l + 6)));
             }
             None => return Err(("c13:scanner-frame-depends-on-suffix".into(), format!("scanner {}: valid frame at offset 0 not delivered (consumed {})", which, c))),
+        }
+    }
+    // the same frame looked up through the frame iterator: first item, and - when nothing deliverable follows it - the
+    // last item, the only item and the count (an adaptor override that looks at the end of the buffer must agree)
+    if iter_view {
+        let (rf, _) = crate::frame::ref_scan_all(&ext);
+        let mut it = MsgFrameIter::new(&ext);
+        match (&mut it).next() {
+            Some(m) if m.frame_data() == frame && m.message_number() == expect_number => {}
+            _ => return Err(("c13:iterator-frame-depends-on-suffix".into(), format!("MsgFrameIter over frame + {} suffix bytes does not yield the frame first", suffix.len()))),
+        }
+        if rf.len() == 1 {
+            let mut it2 = MsgFrameIter::new(&ext);
+            let last = (&mut it2).last();
+            let mut it3 = MsgFrameIter::new(&ext);
+            let n = (&mut it3).count();
+            let mut it4 = MsgFrameIter::new(&ext);
+            let nth0 = (&mut it4).nth(0);
+            let ok = |m: &Option<MessageFrame>| m.as_ref().map(|m| m.frame_data() == frame && m.message_number() == expect_number && format!("{:?}", m.get_message()) == b.message).unwrap_or(false);
+            if !ok(&last) || !ok(&nth0) || n != 1 {
+                return Err((
+                    "c13:iterator-frame-depends-on-suffix".into(),
+                    format!("frame followed by {} bytes that hold no further frame: last() / nth(0) / count() = {:?} / {:?} / {} instead of this frame, this frame, 1", suffix.len(), last.map(|m| m.frame_len()), nth0.map(|m| m.frame_len()), n),
+                ));
+            }
         }
     }
     // the same bytes at another memory offset (slice start not aligned like the Vec's allocation) and looked at twice
@@ -95,9 +124,9 @@ fn viol(sig: String, msg: String, f: &[u8], suf: &[u8]) -> Violation {
 
 pub fn run(ctx: &Ctx, replay: Option<&J>) -> CheckResult {
     let rule = "valid frames of every payload length L=0..=1023 (random payloads, random reserved bits) plus every golden frame (typed decode) and structured / hostile frames of every supported number (incl. 1029 frames whose byte counter exceeds the payload) x \
-        suffixes {1,2,3 bytes, many random bytes, another valid frame, a copy of the frame itself, a damaged copy, >1029 random bytes, 0xD3 runs, 0x00/0xFF runs, and for every length suffixes that bring the total to 65535, 65536, 65537, 65536+L+5, 65536+L+6, 131072, 131075 and 196608+ bytes}; oracle: (frame_len, data_len, payload, \
+        suffixes {1,2,3 bytes, many random bytes, another valid frame, a copy of the frame itself, a damaged copy, >1029 random bytes, 0..4200 bytes without any 0xD3, 0xD3 runs, 0x00/0xFF runs, and for every length suffixes that bring the total to 65535, 65536, 65537, 65536+L+5, 65536+L+6, 131072, 131075 and 196608+ bytes}; oracle: (frame_len, data_len, payload, \
         frame bytes, crc, message_number, Debug of decoded message) identical with and without suffix, message_number == first 12 payload bits \
-        iff L>=2 else None (then decode is Empty); next_msg_frame delivers the same frame from offset 0 with and without the suffix; the same bytes observed from a slice at another memory offset, and observed twice, give the same attributes. non-trivial = non-empty suffix; distinct = hash(frame, suffix)"
+        iff L>=2 else None (then decode is Empty); next_msg_frame delivers the same frame from offset 0 with and without the suffix, MsgFrameIter yields it first and - when the suffix holds no further frame - as last(), nth(0) and the only item (one payload in three carries the image of a complete frame); the same bytes observed from a slice at another memory offset, and observed twice, give the same attributes. non-trivial = non-empty suffix; distinct = hash(frame, suffix)"
         .to_string();
     let assumptions = vec!["frames are built by the harness' own framing code with its own CRC".to_string()];
     if let Some(case) = replay {
@@ -138,8 +167,21 @@ pub fn run(ctx: &Ctx, replay: Option<&J>) -> CheckResult {
                     let l = f.len() - 6;
                     (f, l)
                 };
+                // every third repetition: the payload carries the image of a complete valid frame (a frame inside a frame)
+                let (f, l) = if job < 1024 && l >= 8 && rep % 3 == 1 {
+                    let mut p = f[3..3 + l].to_vec();
+                    let il = rng.below((l - 6).min(40) as u64) as usize;
+                    let inner = crate::pool::random_frame(&mut rng, il, false);
+                    let at = rng.below((l - inner.len() + 1) as u64) as usize;
+                    p[at..at + inner.len()].copy_from_slice(&inner);
+                    (frame_with_reserved(&p, f[1] >> 2), l)
+                } else {
+                    (f, l)
+                };
                 let ol = rng.below(30) as usize;
                 let other = crate::pool::random_frame(&mut rng, ol, false);
+                let quiet_len = rng.below(4200) as usize;
+                let quiet: Vec<u8> = rng.bytes(quiet_len).into_iter().map(|b| if b == 0xD3 { 0x3D } else { b }).collect();
                 let suffixes: Vec<Vec<u8>> = vec![
                     vec![rng.below(256) as u8],
                     rng.bytes(2),
@@ -153,6 +195,7 @@ pub fn run(ctx: &Ctx, replay: Option<&J>) -> CheckResult {
                     vec![0xFF; 1 + rng.below(5) as usize],
                     vec![0x00; 1 + rng.below(5) as usize],
                     golden.get(rng.below(golden.len().max(1) as u64) as usize).map(|g| g.1.clone()).unwrap_or_else(|| vec![1, 2, 3]),
+                    quiet,
                 ];
                 for suf in &suffixes {
                     ev.eval();
